@@ -86,7 +86,9 @@ package mod
 
 // after a Read the next Write must continue where the Read stopped
 //@ func iface github.com/ipfs/boxo/ipld/unixfs/io.DagReader.Read
+//@   writes-args
 //@ func iface github.com/ipfs/boxo/ipld/unixfs/io.DagReader.CtxReadFull
+//@   writes-args
 //@ func (*DagModifier).readPrep
 //@   assumed
 //@   modifies dm.wrBuf, dm.writeStart, dm.curNode, dm.read, dm.readCancel
